@@ -49,7 +49,21 @@ pub open spec fn any_ambiguous(tb: PkgEnv, key: InherentImplKey, for_ty: Ty, t: 
 }
 
 // ---- overlap between an instance impl (`impl Box[int32]`, key Exact) and a generic impl (`impl[T] Box[T]`, key Constr) ----
-pub uninterp spec fn constr_name_of(t: Ty) -> Option<Seq<char>>;                       // typer::util::try_constr_name
+// the type constructor a type is an instance of: the name of its enum / struct, applied or not; `Vec`, `Ref` (typer::util::try_constr_name is
+// verified against this in U-INHERENT; U-TRAITNAME sees it through the stub below)
+pub open spec fn constr_name_of(t: Ty) -> Option<Seq<char>>
+    decreases t,
+{
+    match t {
+        Ty::TEnum { name } => Some(name@),
+        Ty::TStruct { name } => Some(name@),
+        Ty::TApp { ty, .. } => constr_name_of(*ty),
+        Ty::TVec { .. } => Some("Vec"@),
+        Ty::TRef { .. } => Some("Ref"@),
+        _ => None,
+    }
+}
+#[verifier::external_body] pub fn lit_string(s: &'static str) -> (r: String) ensures r@ == s@ { unimplemented!() }       // "lit".to_string()
 // the method name n is already defined under the OTHER kind of key for the same type constructor
 pub open spec fn overlap_defined(t: InherentTable, key: InherentImplKey, for_ty: Ty, n: Seq<char>) -> bool {
     match key {
@@ -66,6 +80,7 @@ pub open spec fn is_taken(e: PkgEnv, key: InherentImplKey, for_ty: Ty, n: Seq<ch
 }
 // ---- a method named like a variant of its own enum ----
 pub struct TastIdent(pub String);
+impl TastIdent { #[verifier::external_body] pub fn new(name: &str) -> (r: TastIdent) ensures r.0@ == name@ { unimplemented!() } }
 pub struct EnumDef { pub variants: Vec<(TastIdent, Vec<Ty>)> }      // env::EnumDef: only the variant list is read
 #[verifier::external_body] pub struct EnumTable { _p: u64 }        // IndexMap<TastIdent, EnumDef>, keyed by the TEXT of the name
 impl EnumTable {
@@ -98,8 +113,6 @@ pub open spec fn variant_named(e: PkgEnv, for_ty: Ty, n: Seq<char>) -> bool {
     constr_name_of(for_ty) matches Some(c) && (e.enum_table().def_of(c) matches Some(d) && declares_variant(d, n))
 }
 // ---- toplevel::inherent_method_overlaps itself (verified; these are its callees) ----
-#[verifier::external_body] pub fn try_constr_name(t: &Ty) -> (r: Option<String>)
-    ensures r matches Some(c) ==> constr_name_of(*t) == Some(c@), r is None ==> constr_name_of(*t) is None { unimplemented!() }
 // `try_constr_name(ty).as_deref() == Some(constr.as_str())`
 #[verifier::external_body] pub fn constr_is(t: &Ty, c: &String) -> (r: bool) ensures r == (constr_name_of(*t) == Some(c@)) { unimplemented!() }
 impl SchemeMap { #[verifier::external_body] pub fn contains_str(&self, k: &str) -> (r: bool) ensures r == self@.dom().contains(k@) { unimplemented!() } }
